@@ -32,8 +32,8 @@ type Subscription { tick(s: String, n: Int): String }
 // default values, so that a cached document that was mutated by one request
 // or a variable that leaked from another shows in the response.
 const (
-	textQ1 = `query A($s: String = "dflt", $f: Boolean = false) { opName vars exts h: hdr(name: "X-Req") e1: echo(s: $s) ...F @skip(if: $f) node { id ...N @include(if: $f) child { id } } } query B($s: String) { opName b: echo(s: $s, n: 2) ...F } fragment F on Query { fe: echo(s: "frag") e1: echo(s: $s) node { name child { name } } } fragment N on Node { name }`
-	textQ2 = `query A($s: String, $f: Boolean = false) { opName vars exts h: hdr(name: "X-Req") z: echo(s: $s) ... @include(if: $f) { inc: echo(s: "included") } node { ...N } node { child { id } } } fragment N on Node { id nm: name }`
+	textQ1 = `query A($s: String = "dflt", $f: Boolean = false) { opName vars exts h: hdr(name: "X-Req") e1: echo(s: $s) node { id ...N @include(if: $f) child { id } } ...F @skip(if: $f) } query B($s: String) { opName b: echo(s: $s, n: 2) ...F } fragment F on Query { fe: echo(s: "frag") e1: echo(s: $s) node { name child { name } } } fragment N on Node { name }`
+	textQ2 = `query A($s: String, $f: Boolean = false) { opName vars exts h: hdr(name: "X-Req") z: echo(s: $s) ... @include(if: $f) { inc: echo(s: "included") } node { ...N i2: id x: name } node { child { id } } } fragment N on Node { id nm: name }`
 	textQX = `query A { opName nosuchfield }`
 )
 
